@@ -146,6 +146,10 @@ def signature(desc, kind, label, diffs, ok):
 # (b) derive B from A, mutate one, observe the other
 # ---------------------------------------------------------------------------------------
 DERIVE = ['copy', 'copy_norec', 'copy_ro', 'copycopy']
+# derivations that SHARE arrays by design; only the derivative SET (keys, d_d attributes) is
+# per-object there, so only that is observed and only the derivative mutators are applied
+DERIVE_VIEW = ['clone', 'polynomial', 'as_vector']
+DERIV_MUTATORS = ['insert_deriv', 'delete_deriv', 'delete_derivs']
 MUTATORS = ['setitem0', 'setitem_masked', 'setitem_all', 'iadd', 'imul', 'isub', 'set_units', 'insert_deriv',
             'delete_deriv', 'as_readonly', 'deriv_setitem', 'deriv_iadd', 'values_write', 'mask_write',
             'deriv_values_write', 'delete_derivs', 'iand']
@@ -158,7 +162,18 @@ def derive(a, how):
         return a.copy(recursive=False)
     if how == 'copy_ro':
         return a.copy(readonly=True)
+    if how == 'clone':
+        return a.clone()
+    if how == 'polynomial':
+        return _poly(a)
+    if how == 'as_vector':
+        return a.as_vector()
     return _copy.copy(a)
+
+
+def _poly(a):
+    import polymath
+    return polymath.Polynomial(a)
 
 
 def mutate(x, how, Pm):
@@ -229,6 +244,12 @@ def seq_cases(Pm):
                 for side in ('mutate_copy', 'mutate_source'):
                     for mu in MUTATORS:
                         out.append({'recv': r, 'derive': dv, 'side': side, 'mutator': mu})
+            views = ['clone'] + (['polynomial'] if cname in ('Vector', 'Vector3', 'Pair', 'Quaternion') else []) \
+                + (['as_vector'] if cname == 'Polynomial' else [])
+            for dv in views:
+                for side in ('mutate_copy', 'mutate_source'):
+                    for mu in DERIV_MUTATORS:
+                        out.append({'recv': r, 'derive': dv, 'side': side, 'mutator': mu})
     return out
 
 
@@ -236,6 +257,19 @@ def run_seq(c, Pm):
     """-> None (fine) or dict(what, diffs)"""
     a = sweep.build_receiver(c['recv'], Pm)
     b = derive(a, c['derive'])
+    if c['derive'] in DERIVE_VIEW:
+        target, other = (b, a) if c['side'] == 'mutate_copy' else (a, b)
+        keys0 = (sorted(other.derivs), sorted(k for k in other.__dict__ if k.startswith('d_d')))
+        try:
+            mutate(target, c['mutator'], Pm)
+            raised = None
+        except Exception as e:      # noqa
+            raised = type(e).__name__
+        keys1 = (sorted(other.derivs), sorted(k for k in other.__dict__ if k.startswith('d_d')))
+        if keys1 != keys0:
+            return {'what': 'derivative-set-shows-through', 'raised': raised,
+                    'diffs': [('derivs', str(keys0), str(keys1))]}
+        return None
     # no writable storage may be shared
     for na, xa in arrays_of(a):
         for nb, xb in arrays_of(b):
